@@ -116,14 +116,37 @@ func runC17Listener(c *kernel.Ctx) {
 	root := simnet.NewListener()
 	l := listener.VerifNewListener(root, listener.Config{FlushRate: rate})
 	l.SetReadTimeout(120 * time.Second)
-	httpL := l.Match(listener.MatchHTTP())
-	anyL := l.Match(listener.MatchAny())
+	// the matcher set: by tape 0-2 more peeking matchers ahead of the broker's own two (prefixes shorter
+	// and longer than what the HTTP matcher peeks), so that a connection is replayed to several matchers
+	// that each read a different number of bytes before the accepting one gets the stream
+	extra := []struct {
+		name string
+		m    listener.Matcher
+		pre  string
+	}{
+		{"p-ok", listener.MatchPrefix("ok"), "ok"},
+		{"p-long", listener.MatchPrefix("0123456789abcdef"), "0123456789abcdeX"},
+		{"p-x", listener.MatchPrefix("x", "xyz", "xyzzyxyzzy"), "xyzzyxyzzZ"},
+	}
+	matchers := map[string]net.Listener{}
+	var order []string
+	var pres []string
+	for _, e := range extra {
+		if t.Chance(1, 4) {
+			matchers[e.name] = l.Match(e.m)
+			order = append(order, e.name)
+			pres = append(pres, e.pre, e.pre[:len(e.pre)-1], e.pre[:1])
+		}
+	}
+	matchers["http"] = l.Match(listener.MatchHTTP())
+	matchers["any"] = l.Match(listener.MatchAny())
+	order = append(order, "http", "any")
 	go l.Serve()
 	defer l.Close()
-	accepted := make(chan net.Conn, 2)
-	which := make(chan string, 2)
-	for name, ml := range map[string]net.Listener{"http": httpL, "any": anyL} {
-		name, ml := name, ml
+	accepted := make(chan net.Conn, 8)
+	which := make(chan string, 8)
+	for _, name := range order {
+		name, ml := name, matchers[name]
 		go func() {
 			if conn, err := ml.Accept(); err == nil {
 				which <- name
@@ -133,7 +156,13 @@ func runC17Listener(c *kernel.Ctx) {
 	}
 	cl := root.Dial("client")
 	in := genStream(c, 8000)
-	c.Logf("listener rate=%d in=%d bytes", rate, len(in))
+	if len(pres) > 0 {
+		c.Probe("extra-peeking-matchers")
+		if t.Chance(2, 3) { // streams that start like, or almost like, what the extra matchers look for
+			in = append([]byte(pres[t.Choose(len(pres))]), in...)
+		}
+	}
+	c.Logf("listener rate=%d matchers=%v in=%d bytes", rate, order, len(in))
 	sizes := make([]int, 8)
 	for i := range sizes {
 		sizes[i] = []int{1, 2, 7, 8, 9, 64, 1024, 4096}[t.Choose(8)]
